@@ -22,6 +22,8 @@ const NAMES: &[(&str, &str)] = &[
     (".hidden", "leading-dot"),
     ("x.md", "md-md"),
     ("semi;colon&amp", "punct"),
+    // a word, a colon, a space: reads like an address with a scheme, and is not one
+    ("Re: plan", "colon-space"),
 ];
 
 const BASES: &[(&str, &str)] = &[
